@@ -951,8 +951,38 @@ fn into_iter_adaptors(root: Root, m: &M, mode: u8) -> Result<(), Fail> {
         Root::Plain(t) => t,
         Root::Reader(r) => r.into_inner(),
     };
-    let want = iter_mode(flat.clone().into_iter(), mode, flat.len());
     let rem = flat.len();
+    if mode == N_ITER_MODES + 1 {
+        // next(), then the inner buffer consumed behind the iterator's back through IntoIter::get_mut(), then the rest:
+        // whatever the iterator remembers about its buffer must not outlive a mutable access to it
+        let r = catch_unwind(AssertUnwindSafe(|| {
+            let mut it = bytes::buf::IntoIter::new(t);
+            let mut got = vec![];
+            if let Some(b) = it.next() {
+                got.push(b);
+            }
+            let left = it.get_ref().remaining();
+            let skip = left.min(1);
+            it.get_mut().advance(skip);
+            let (lo, hi) = it.size_hint();
+            let rest: Vec<u8> = it.collect();
+            (got, skip, rest, lo, hi)
+        }));
+        return match r {
+            Ok((got, skip, rest, lo, hi)) => {
+                let mut want_rest = flat.clone();
+                let first: Vec<u8> = want_rest.drain(..rem.min(1)).collect();
+                let want_rest: Vec<u8> = want_rest.into_iter().skip(skip).collect();
+                if got != first || rest != want_rest || lo != want_rest.len() || hi != Some(want_rest.len()) {
+                    Err(f9("into_iter-get_mut", format!("next(), get_mut().advance({}), then the rest: yielded {:02x?} then {:02x?} (size_hint ({}, {:?})), want {:02x?} then {:02x?}", skip, got, rest, lo, hi, first, want_rest)))
+                } else {
+                    Ok(())
+                }
+            }
+            Err(_) => Err(f9("into_iter-get_mut-panic", format!("next(), get_mut().advance(1), then iterating to the end panicked with {} bytes at the start", rem))),
+        };
+    }
+    let want = iter_mode(flat.clone().into_iter(), mode, flat.len());
     let r = catch_unwind(AssertUnwindSafe(|| iter_mode(bytes::buf::IntoIter::new(t), mode, rem)));
     match r {
         Ok(got) if got == want => Ok(()),
@@ -1000,7 +1030,7 @@ fn ops_at(root_is_take: bool, reader: bool, rem: usize, cur_limit: Option<usize>
             v.push(Op::ReadMore(mode));
         }
     }
-    for mode in 0..=(if reader { 0 } else { N_ITER_MODES }) {
+    for mode in 0..=(if reader { 0 } else { N_ITER_MODES + 1 }) {
         v.push(Op::IntoIter(mode));
     }
     v.push(Op::Dismantle);
